@@ -38,6 +38,13 @@ def NodeD.outPin (n : NodeD) (i : Nat) : Option Nat := (n.outs.getD i none)
 def NodeD.nIns (n : NodeD) : Nat := (n.ins.filter Option.isSome).length
 
 def Net.node (net : Net) (i : Nat) : NodeD := net.nodes.getD i default
+
+/-- **arity domain** (audit finding 1 / known finding D33): every node that is neither a fork nor a state element has at most FOUR
+input pin slots.  `lineEq` / `evalLineG` below — and the real `SimOps` (sim.py: the arity variant is chosen by pins 2 and 3, operands
+are pins 0..3) — read pins 0..3 only: a gate with more input pins means, for both, the 4-input primitive of its first four pins.
+Inside this domain the gate equations below are the equations the netlist describes; outside they are what kyupy computes, not what
+a reader of the netlist expects (`C11.wide_gate_not_simulated`). -/
+def Net.arityOKB (net : Net) : Bool := net.nodes.all fun n => n.isFork || n.isSeq || n.ins.length ≤ 4
 def Net.line (net : Net) (i : Nat) : LineD := net.lines.getD i default
 
 /-- `Circuit.s_nodes`: ports, then flip-flops, then latches (node order) -/
